@@ -133,10 +133,16 @@ def main():
     os.makedirs(workdir, exist_ok=True)
     import singlecellmultiomics.universalBamTagger.bamtagmultiome  # noqa: F401  warm import before forking
     cases = []
+    unrealisable = []
     if replay:
         cases.append(make_case(1, workdir, replay['scn'], replay['method'], replay['bamseed'], replay.get('mixed', False)))
     else:
         for k, s in enumerate(scns):
+            if s['at'].startswith('worker:') and s['job'] >= 2 and s['size'][s['job'] - 1] == 0:
+                # a contig without records is not in idxstats, so the real plan has no such job (the model plans it and
+                # DropEmptyJob removes it): nothing to inject into
+                unrealisable.append(k)
+                continue
             methods = ['nla', 'chic'] if (tier != 'quick' or s['at'] == 'done') else [['nla', 'chic'][k % 2]]
             for m in methods:
                 cases.append(make_case(len(cases) + 1, workdir, s, m, rng.randrange(1 << 30)))
@@ -150,7 +156,7 @@ def main():
             for e in events_for(c, results[c['id']], c['id']):
                 f.write(json.dumps(e, separators=(',', ':')) + '\n')
             n_fired += bool(results[c['id']]['events']['fired'])
-    json.dump({'cases': len(cases), 'fired': n_fired,
+    json.dump({'cases': len(cases), 'fired': n_fired, 'unrealisable_scenarios': len(unrealisable),
                'not_fired': [c['id'] for c in cases if c['fault'] and not results[c['id']]['events']['fired']]}, open(outp + '.meta', 'w'))
 
 
